@@ -40,6 +40,12 @@ TResult ==
        [] sc.op = "spec_reuse" -> /\ Cur.ok
                                   /\ Cur.cproc = "/verif.v1.B/Second" /\ Cur.cisclient /\ Cur.cstype = 0
                                   /\ Cur.hproc = Cur.cproc /\ ~Cur.hisclient /\ Cur.hstype = Cur.cstype
+       \* the second exchange on a reused Request is consistent on its own: compressed iff at least the threshold, the
+       \* header names an algorithm if the body is compressed (for unary Connect: exactly then), the message arrives
+       [] sc.op = "enc_reuse" -> /\ Cur.ok1 /\ Cur.ok /\ Cur.same
+                                 /\ Cur.bodycomp = Cur.large
+                                 /\ (Cur.bodycomp => Cur.hdrenc)
+                                 /\ (sc.proto = "connect" => Cur.hdrenc = Cur.bodycomp)
        \* a client that could not be configured: every API reports that error, the transport is never reached
        [] sc.op = "client_init_fail" -> /\ Cur.reached = 0 /\ Len(Cur.codes) >= 8
                                         /\ \A i \in 1..Len(Cur.codes) : Cur.codes[i] = Cur.codes[1] /\ Cur.codes[i] \in 1..16
